@@ -57,6 +57,7 @@ fn main() {
     let stdout = io::stdout();
     let mut out = io::BufWriter::new(stdout.lock());
     for line in stdin.lock().lines() {
+        out.flush().unwrap(); // one result line per case is visible to the supervisor before the next case starts
         let line = line.unwrap();
         let parts: Vec<&str> = line.splitn(4, '\x1e').collect();
         if parts.len() != 4 {
